@@ -8,7 +8,7 @@
 (*    observed: nflux, nivar (lengths), finite, nonneg, nz[j] = 1 iff newivar[j] # 0,            *)
 (*    out[j] = round(newivar[j] * q * IvarScale), interp = the interpolation law applies         *)
 (*    (one exposure, inverse variance supplied).                                                 *)
-(* kind "law": law \in {"identity", "const", "scale", "shift"} with the measured discrepancies   *)
+(* kind "law": law \in {"identity", "const", "scale", "shift", "layout"} with the measured discrepancies   *)
 (*    as scaled integers.                                                                        *)
 (*                                                                                               *)
 (* State i / why = "init" is the unjudged record; its one successor carries the verdict          *)
@@ -50,6 +50,8 @@ VerdictLaw(r) ==
        (IF r.kout # ShiftedIndex(r.k0, r.o1, r.m, r.o2) THEN "de-redshifted feature is not at L - log10(1+z)"
         ELSE IF r.residmilli > ShiftResidTolMilli THEN "de-redshifted feature is off L - log10(1+z) by more than 0.01 pixel"
         ELSE "")
+  ELSE IF r.law = "layout" THEN
+       (IF r.devppb <= LayoutTolPpb THEN "" ELSE "the result depends on the memory layout of the arguments, not only on their values")
   ELSE "unknown law"
 
 Init == i \in 1 .. Len(Recs) /\ ok = TRUE /\ why = "init"
